@@ -236,7 +236,14 @@ func TestC14_Trees(t *testing.T) {
 			tc.Files["page"] = "@component(\"comp\")\n@slot(\"x\")1@end\n@slot(\"y\")2@end\n@slot(\"z\")3@end\n@slot 4@end\n@end"
 		case 3:
 			tc.Files["comp"] = "<c>{{ alpha }}{{ beta }}</c>"
-			tc.Files["page"] = "@component(\"comp\", {alpha: zz1, beta: 1 / 0, gamma: 1 + 'a', delta: zz2});"
+			if rapid.Bool().Draw(rt, "bindFailures") {
+				// several arguments that cannot be bound (type differs from a visible
+				// variable of that name, or the reserved name)
+				tc.Files["page"] = "{{ delta = 1.5 }}@component(\"comp\", {alpha: 1, beta: \"s\", gamma: [1], delta: \"d\", loop: 1});"
+				cs.Data = (&spec.Data{}).Add("alpha", spec.String("outer")).Add("beta", spec.IntOf(spec.TInt, 5)).Add("gamma", spec.Bool(true))
+			} else {
+				tc.Files["page"] = "@component(\"comp\", {alpha: zz1, beta: 1 / 0, gamma: 1 + 'a', delta: zz2});"
+			}
 		case 4:
 			bad := []string{"line1\n{{ 1 + }}", "{{ # }}", "a\nb\n@if(true)x", "@component(\"nosuch1\")", "@use(\"~nosuchlayout\")", "@each(x of y)@end", "{{ \"unterminated }}"}
 			n := rapid.IntRange(2, 3).Draw(rt, "nBadFiles")
